@@ -68,9 +68,8 @@ def splitAtByteExclusive (data : Bytes) (b : UInt8) : Option (Bytes × Bytes) :=
   | _ => splitAtByte b data
 
 /-- the loop of `leb64_from_read` after a byte with the continuation bit; `i` = bytes read so far.
-`value << 7` silently drops the bits above 2^64; more than 10 bytes trip a `debug_assert!`
-(release builds keep wrapping) — both are outside what git writes and the model answers `none`
-for an 11th byte. -/
+An 11th byte is an `InvalidData` error (repaired: it tripped a `debug_assert!` before and wrapped
+silently in release builds); `value << 7` drops the bits above 2^64 for a 10-byte number. -/
 def varIntLoop (value i : Nat) : Bytes → Option (Nat × Bytes)
   | [] => none
   | b :: rest =>
@@ -234,11 +233,12 @@ inductive Res (α : Type) where
   deriving Repr, DecidableEq
 
 /-- one thread: the blocks of its group one after the other, each from its own file offset with a
-fresh `chunk` call; `&data[offset..]` panics when the offset is beyond the end. -/
+fresh `chunk` call; an offset beyond the end is `Error::Entry` (repaired: `&data[offset..]`
+panicked in the worker thread before). -/
 def decodeGroup (v4 : Bool) (data : Bytes) : List Offset → Res (List Entry)
   | [] => .ok []
   | o :: os =>
-    if data.length < o.fromStart then .panic
+    if data.length < o.fromStart then .err
     else match chunk v4 o.numEntries (data.drop o.fromStart) with
       | none => .err
       | some (es, _) =>
@@ -403,11 +403,17 @@ def hasAdjacentDup : List Tree → Bool
   | a :: b :: rest => a.name == b.name || hasAdjacentDup (b :: rest)
   | _ => false
 
+/-- `MAX_DEPTH` of the TREE and UNTR decoders -/
+def maxDepth : Nat := 4096
+
 mutual
-  /-- `one_recursive`; fuel bounds the nesting + sibling count (data length + 1 suffices) -/
-  def treeOne : Nat → Bytes → Option (Tree × Bytes)
-    | 0, _ => none
-    | fuel + 1, data =>
+  /-- `one_recursive`; nodes nested deeper than `maxDepth` are refused (repaired: unbounded
+  recursion before); fuel bounds the nesting + sibling count (data length + 2 suffices) -/
+  def treeOne : Nat → Nat → Bytes → Option (Tree × Bytes)
+    | 0, _, _ => none
+    | fuel + 1, depth, data =>
+      if depth > maxDepth then none
+      else
       match splitAtByteExclusive data 0 with
       | none => none
       | some (path, d) =>
@@ -428,27 +434,27 @@ mutual
         match idRest with
         | none => none
         | some (id, d) =>
-          match treeMany fuel subtreeCount d with
+          match treeMany fuel (depth + 1) subtreeCount d with
           | none => none
           | some (subs, d) =>
             let sorted := sortByName subs
             if hasAdjacentDup sorted then none
             else some (.mk path id (if numEntries ≥ 0 then some numEntries.toNat else none) sorted, d)
-  def treeMany : Nat → Nat → Bytes → Option (List Tree × Bytes)
-    | 0, _, _ => none
-    | _ + 1, 0, data => some ([], data)
-    | fuel + 1, n + 1, data =>
-      match treeOne fuel data with
+  def treeMany : Nat → Nat → Nat → Bytes → Option (List Tree × Bytes)
+    | 0, _, _, _ => none
+    | _ + 1, _, 0, data => some ([], data)
+    | fuel + 1, depth, n + 1, data =>
+      match treeOne fuel depth data with
       | none => none
       | some (t, d) =>
-        match treeMany fuel n d with
+        match treeMany fuel depth n d with
         | none => none
         | some (ts, d) => some (t :: ts, d)
 end
 
 /-- `tree::decode` (repaired: leftover bytes give `None`, they tripped an `assert!` before) -/
 def treeDecode (data : Bytes) : Res (Option Tree) :=
-  match treeOne (data.length + 2) data with
+  match treeOne (data.length + 2) 0 data with
   | none => .ok none
   | some (t, rest) => if rest.isEmpty then .ok (some t) else .ok none
 
@@ -715,10 +721,12 @@ def isNull (id : Bytes) : Bool := id.all (· == 0)
 
 mutual
   /-- `decode_directory_block`: appends this directory, then its sub-directories (pre-order);
-  `dirs` is the accumulated vector. -/
-  def udirBlock : Nat → Bytes → List UDir → Option (Bytes × List UDir)
-    | 0, _, _ => none
-    | fuel + 1, data, dirs =>
+  `dirs` is the accumulated vector; blocks nested deeper than `maxDepth` are refused. -/
+  def udirBlock : Nat → Nat → Bytes → List UDir → Option (Bytes × List UDir)
+    | 0, _, _, _ => none
+    | fuel + 1, depth, data, dirs =>
+      if depth > maxDepth then none
+      else
       match varInt data with
       | none => none
       | some (numUntracked, d) =>
@@ -728,8 +736,9 @@ mutual
       match splitAtByteExclusive d 0 with
       | none => none
       | some (name, d) =>
-        -- `Vec::with_capacity(num)` of an absurd size aborts in the real code; data can never hold
-        -- that many names, the model answers `none` (outside what the harness generates)
+        -- every name and every sub-directory block takes at least one byte, so counts beyond the
+        -- remaining data can only end in `None`; answering that right away keeps the driver from
+        -- looping over absurd counts (the real code caps its pre-allocations the same way)
         if numUntracked > d.length ∨ numDirs > d.length then none
         else
         match splitNames numUntracked d with
@@ -737,17 +746,17 @@ mutual
         | some (names, d) =>
           let index := dirs.length
           let dirs := dirs ++ [{ name, untracked := names, subDirs := [], stat := none, excludeOid := none, checkOnly := false }]
-          udirSubs fuel numDirs index d dirs
-  def udirSubs : Nat → Nat → Nat → Bytes → List UDir → Option (Bytes × List UDir)
-    | 0, _, _, _, _ => none
-    | _ + 1, 0, _, data, dirs => some (data, dirs)
-    | fuel + 1, n + 1, index, data, dirs =>
+          udirSubs fuel (depth + 1) numDirs index d dirs
+  def udirSubs : Nat → Nat → Nat → Nat → Bytes → List UDir → Option (Bytes × List UDir)
+    | 0, _, _, _, _, _ => none
+    | _ + 1, _, 0, _, data, dirs => some (data, dirs)
+    | fuel + 1, depth, n + 1, index, data, dirs =>
       let subIndex := dirs.length
-      match udirBlock fuel data dirs with
+      match udirBlock fuel depth data dirs with
       | none => none
       | some (d, dirs) =>
         let dirs := dirs.modify index fun u => { u with subDirs := u.subDirs ++ [subIndex] }
-        udirSubs fuel n index d dirs
+        udirSubs fuel depth n index d dirs
 end
 
 /-- `check_only.for_each_set_bit(|index| directories.get_mut(index)?.check_only = true)`
@@ -818,7 +827,7 @@ def untrDecode (data : Bytes) : Res (Option Untracked) :=
         excludePerDir := perDir, dirFlags, dirs }
     if numBlocks = 0 then (if d.isEmpty then .ok (some (res [])) else .ok none)
     else
-    match udirBlock (d.length + 2) d [] with
+    match udirBlock (d.length + 2) 0 d [] with
     | none => .ok none
     | some (d, dirs) =>
       if dirs.length ≠ numBlocks then .ok none
@@ -869,7 +878,7 @@ def fsmnDecode (data : Bytes) : Res (Option FsMonitor) :=
       match readU32 d with
       | none => .ok none
       | some (ewahSize, d) =>
-        if d.length < ewahSize then .panic          -- `&data[..ewah_size as usize]`
+        if d.length < ewahSize then .ok none        -- `data.get(..ewah_size as usize)?` (repaired: it sliced unchecked)
         else match ewahDecode (d.take ewahSize) with
           | none => .ok none
           | some (bits, rest) =>
